@@ -313,7 +313,7 @@ pub fn run(ctx: &Ctx) -> i32 {
             None => return,
         };
         acc.inc("cases");
-        let base = match route(&case, &case.base_kin()) {
+        let base = match route_via(&case, &case.base_kin()) {
             Ok(r) => r,
             Err(_) => return,
         };
@@ -332,7 +332,7 @@ pub fn run(ctx: &Ctx) -> i32 {
                 return;
             }
             acc.inc("sectors");
-            let trop = route(&case, &case.tropical_kin(order)).ok();
+            let trop = route_via(&case, &case.tropical_kin(order)).ok();
             for (x, _) in sector_points(&case, order, k, &roles) {
                 c01_point(&case, &base, &x, acc);
                 if let Some(t) = &trop {
